@@ -52,6 +52,11 @@ func init() {
 		for k, v := range rev {
 			ev[k] = v
 		}
+		// the commit callback's context: cancelled by a sync to a higher height and by shutdown, by nothing older
+		cfs, cev, cinc := rtPart(run, "commitsync", 48, 2000, map[string]int{"C15 commit-callback contexts judged": 30})
+		fs = append(fs, cfs...)
+		inc = append(inc, cinc...)
+		ev["rt_commitsync"] = cev
 		cov := map[string]interface{}{
 			"evaluations":         ev["registry_sequences_exhaustive"].(int) + ev["concurrent_histories"].(int),
 			"distinct_nontrivial": ev["registry_sequences_with_issue_and_cancel"].(int),
